@@ -77,6 +77,10 @@ def build_script(c):
         # several CBC ciphers and several ETM MACs, with the strict-kex marker on every other peer (advisory note) and without it (per-algorithm warnings)
         k['enc_sc'] = k['enc_cs'] = ['chacha20-poly1305@openssh.com', 'aes128-cbc', 'aes192-cbc', 'aes256-cbc', '3des-cbc', 'aes256-ctr', 'aes128-cbc']
         k['mac_sc'] = k['mac_cs'] = ['hmac-sha2-256-etm@openssh.com', 'hmac-sha2-512-etm@openssh.com', 'umac-128-etm@openssh.com', 'hmac-sha1']
+        # names the database knows both as cipher and as MAC, with different entries, listed in both categories (RFC 5647 requires that for the AEAD names): each rendering rates each occurrence by its own category
+        both = ['chacha20-poly1305@openssh.com', 'AEAD_AES_128_GCM', 'none']
+        k['enc_sc'] = k['enc_cs'] = k['enc_sc'] + [x for x in both if x not in k['enc_sc']]
+        k['mac_sc'] = k['mac_cs'] = k['mac_sc'] + both
         k['kex'] = [x for x in k['kex'] if not x.startswith('kex-strict')] + (['kex-strict-s-v00@openssh.com'] if c['seed'] % 2 == 0 or c.get('marker') else [])
     hk, gex = {}, None
     if kind == 'sizes':
